@@ -896,6 +896,39 @@ fn check(case: &Case) -> Verdict {
             Err(e) => fails.push("c10.header.read-error", format!("{}", io_chain(&e))),
         }
     }
+    // ---- the same with one lazy record reused for the whole file (`read_record(&mut record)` in a
+    // loop, what `records()` does): each record reads as it does in isolation
+    if all_clean && fails.is_empty() && kept.len() >= 2 {
+        let mut r = bcf::io::Reader::new(&written.file[..]);
+        if let Ok(h) = r.read_header() {
+            let mut record = bcf::Record::default();
+            for (slot, &i) in kept.iter().enumerate() {
+                match panics::catch(|| r.read_record(&mut record)) {
+                    Ok(Ok(n)) if n > 0 => {}
+                    other => {
+                        fails.push("c10.sequential-lazy-read", format!("record slot {slot}: read_record into a reused record: {:?}", other.map(|r| r.map_err(|e| io_chain(&e))).map_err(|p| p.describe())));
+                        break;
+                    }
+                }
+                let bytes = &read_stream[raw_read.ranges[slot].clone()];
+                let mut fresh = bcf::Record::default();
+                if !matches!(panics::catch(|| bcf::io::Reader::from(bytes).read_record(&mut fresh)), Ok(Ok(n)) if n > 0) {
+                    continue;
+                }
+                let a = panics::catch(|| VarRecord::from_variant_record(&h, &fresh));
+                let b = panics::catch(|| VarRecord::from_variant_record(&h, &record));
+                match (a, b) {
+                    (Ok(Ok(a)), Ok(Ok(b))) => {
+                        if let Some((field, msg)) = a.first_diff(&b) {
+                            fails.push(format!("c10.sequential-lazy-read.{field}"), format!("record {i} (slot {slot}): the lazy record reused from slot {} differs from the same bytes read into a fresh record: {msg} (left = fresh, right = reused)", slot.saturating_sub(1)));
+                        }
+                    }
+                    (Ok(Err(_)), Ok(Err(_))) | (Err(_), Err(_)) => {}
+                    (a, b) => fails.push("c10.sequential-lazy-read.outcome", format!("record {i} (slot {slot}): fresh record decodes = {}, reused record decodes = {}", matches!(a, Ok(Ok(_))), matches!(b, Ok(Ok(_))))),
+                }
+            }
+        }
+    }
 
     let mut pass = Pass::new(nontrivial, key_of(case))
         .label(["v4.2", "v4.3", "v4.4", "v4.5", "v?"][(hm.minor as usize).saturating_sub(2).min(4)])
